@@ -425,8 +425,10 @@ func trimStack(s string) string {
 // replay and by minimisation).
 func RunHistory[W any](sc *Scenario[W], seedName string, history []string) (fails []Fail, err error) {
 	byName := map[string]*Op[W]{}
+	indexOf := map[*Op[W]]int{}
 	for i := range sc.Ops {
 		byName[sc.Ops[i].Name] = &sc.Ops[i]
+		indexOf[&sc.Ops[i]] = i
 	}
 	var seed *Seed[W]
 	for i := range sc.Seeds {
@@ -475,6 +477,28 @@ func RunHistory[W any](sc *Scenario[W], seedName string, history []string) (fail
 			}
 		}
 		prev = obs
+		// the differential transition oracle, on two fresh replays
+		if sc.Transition != nil && n > 0 {
+			if oi, ok := indexOf[ops[n-1]]; ok && (sc.WantTransition == nil || sc.WantTransition(oi)) {
+				func() {
+					defer func() {
+						if r := recover(); r != nil {
+							fails = append(fails, Fail{Clause: sc.Property + ".no-panic", Detail: fmt.Sprintf("panic: %v", r)})
+						}
+					}()
+					mk := func(k int) W {
+						w := sc.Fresh()
+						for _, o := range ops[:k] {
+							o.Do(w)
+						}
+						return w
+					}
+					for _, f := range sc.Transition(mk(n-1), mk(n), oi) {
+						fails = append(fails, Fail{Clause: f.Clause, Detail: fmt.Sprintf("after %d operations: %s", n, f.Detail)})
+					}
+				}()
+			}
+		}
 		if len(fails) > 0 {
 			break
 		}
